@@ -989,9 +989,15 @@ impl ErasedNode for Node {
         } else if !self.is_necessary() {
             NodeUpdateDelayed::Unnecessary
         } else {
+            /* A node is handled after stabilisation for other reasons than a change of its value
+            (a new observer or subscription, for instance). Only report [Changed] if the value
+            changed in the stabilisation that just finished. */
+            let changed_now = self.state_opt().map_or(true, |t| {
+                self.changed_at.get().add1() == t.stabilisation_num.get()
+            });
             match self.value_as_any().is_some() {
-                true => NodeUpdateDelayed::Changed,
-                false => NodeUpdateDelayed::Necessary,
+                true if changed_now => NodeUpdateDelayed::Changed,
+                _ => NodeUpdateDelayed::Necessary,
             }
         }
     }
